@@ -31,7 +31,10 @@ LINE = 'f"{self.id_manager.free_betas.names[q]} = {x[q]}"'
 
 contract(B + 'calculate_likelihood_and_derivatives', ['C15', 'C02', 'C04'],
          types={'x': 'list[float]', 'scaled': 'bool', 'hessian': 'bool', 'bhhh': 'bool', 'batch': 'float | None'},
-         requires={'names': 'len(self.id_manager.free_betas.names) == self.id_manager.number_of_free_betas'},
+         requires={'names': 'len(self.id_manager.free_betas.names) == self.id_manager.number_of_free_betas',
+                   # ElementsTuple declares `indices: dict[str, int] | None`; the id manager of a constructed BIOGEME object always holds the
+                   # dict built by expressions_names_indices (proved to return one: C03 / C02 `dom_indices`, `index_of_name`)
+                   'free_parameters_are_numbered': 'self.id_manager.free_betas.indices is not None'},
          raises={'BiogemeError': f'batch is not None or (batch is None and len(x) == self.id_manager.number_of_free_betas and scaled and {NSS} == 0)',
                  'ValueError': 'batch is None and len(x) != self.id_manager.number_of_free_betas'},
          modifies=['*.individualMap', '*.data', '*.fullIndividualMap', 'self.bestIteration'],
